@@ -29,6 +29,10 @@ EXPLANATION = (
 )
 
 
+def rpr_node(ctx):
+    return own_method(ctx, RUNTEST, "RunTest", "_run_prepared_result")
+
+
 def run(ctx):
     ctx.rule("R-ONE-OUTCOME", "every non-framework exit of a run has exactly one outcome between startTest and stopTest")
     ctx.rule("R-BRACKET", "startTest is followed by exactly one stopTest on every path; outcomes only inside the bracket")
@@ -81,6 +85,31 @@ def run(ctx):
     reraise_seen = any(r.kind == "exc" and r.value == RERAISE for r in res)
     ctx.check("R-RERAISE", "an unhandled exception kind propagates out of the run", rt.node, reraise_seen,
               "no abstract path re-raises the recorded exception: KeyboardInterrupt/SystemExit would be swallowed", construct=f"{Q}::reraise-exists")
+
+    # ------------------------------------------------------------------ non-Exception exceptions propagate
+    ctx.rule("R-INTERRUPT-PROPAGATES", "a non-Exception exception raised by any stage is re-raised out of the run, whatever later stages raise")
+    kres, kint = runmodel.analyse_kinds(ctx, rt, kinds=("base", "bad") if ctx.tier == "quick" else runmodel.KINDS)
+    pairs = {}
+    n_base_exits = 0
+    for r in kres:
+        st_ = r.state
+        framework = r.kind == "exc" and isinstance(r.value, tuple) and r.value and r.value[0] == "framework"
+        if framework or st_.get("ev.phantom", 0):
+            continue
+        base = st_.get("exc.base", None)
+        if base is None:
+            continue
+        n_base_exits += 1
+        propagated = r.kind == "exc" and isinstance(r.value, tuple) and r.value[:2] == ("reraise", "base")
+        last = st_.get("exc.last", ("?", "?"))
+        pairs.setdefault((base, last[1], propagated), r)
+    for (base, last_stage, propagated), r in sorted(pairs.items(), key=repr):
+        ctx.check("R-INTERRUPT-PROPAGATES", f"non-Exception raised in {base}, last recorded exception from {last_stage}: {'propagates' if propagated else 'SWALLOWED'}", rpr_node(ctx), propagated,
+                  f"a KeyboardInterrupt / SystemExit raised in {base} does not propagate out of run() when the exception recorded last comes from {last_stage}: "
+                  "the outcome is selected from that last exception alone, it matches a handler, and the run returns normally",
+                  path=runmodel.fmt_log(r.state), construct=f"{Q}._run_prepared_result::non-Exception from {base} masked by {last_stage}")
+    ctx.check("R-INTERRUPT-PROPAGATES", f"{n_base_exits} abstract exits with a non-Exception recorded examined ({len(kres)} exit states)", rt.node, n_base_exits >= 10,
+              "implausibly few exits (model broken?)", examined=len(kres), construct=f"{Q}::kind-exits")
 
     # ------------------------------------------------------------------ sentinel iff recorded
     gue = own_method(ctx, RUNTEST, "RunTest", "_got_user_exception")
